@@ -11,7 +11,7 @@ if s.count(old)<1:
 open(p,'w').write(s.replace(old,new,1))
 try:
     b=subprocess.run("cd /repo && GOFLAGS=-mod=mod GOPROXY=off go build ./... 2>&1 | head -3",shell=True,capture_output=True,text=True).stdout.strip()
-    out=subprocess.run(f"cd /verif && ./bin/sftpcheck -property {props} -out /tmp/ev | grep -v '^VIOLATION' | grep -v ' 0 violations' | cut -c1-260 | head -5",shell=True,capture_output=True,text=True).stdout
+    out=subprocess.run(f"cd /verif && ./bin/sftpcheck -property {props} -out /tmp/ev | grep -v '^VIOLATION' | grep -v '^KNOWN-FINDING' | grep -v ' 0 violations' | cut -c1-260 | head -5",shell=True,capture_output=True,text=True).stdout
     print("== %s [build: %s]"%(desc,b or "ok")); print(out if out.strip() else "   NOT DETECTED")
 finally:
     subprocess.run("git -C /repo checkout -- .",shell=True)
